@@ -113,8 +113,10 @@ func VV(m MaybeFloat) Float {
 //@   inline
 //@ func (Rectangle).Unpack
 //@   props C14
-//@   modifies nothing
-//@   trusted "frame only: converts four numbers"
+//@   inline
+//@ func (Rectangle).ToFloat
+//@   props C14
+//@   inline
 //@ func (Properties).GetFontSize
 //@   props C04
 //@   pure refs
